@@ -12,6 +12,7 @@ import numpy
 from pgverif import gen
 from pgverif import probes
 from pgverif.core import close
+from pgverif.ref import units as RU
 
 LEVEL = "exploration"
 RULE = (
@@ -319,7 +320,7 @@ def _run_forward_slit(case, ctx):
     vol = loading[:m] * M / rho / 1000
     if not numpy.allclose(cum, vol[1:], rtol=1e-9):
         ctx.violation("psd_horvath_kawazoe/cumulative-volume", "the cumulative pore volume is not the adsorbed amount expressed as liquid volume", got=cum[:3], expected=vol[1:4])
-    _check_capture(ctx, "HK", "slit")
+    _check_capture(ctx, "HK", "slit", (ads["molecular_diameter"] + mat["molecular_diameter"]) / 2)
     if _CAPTURE:
         solved = numpy.asarray(_CAPTURE[-1]["widths"], dtype=float) - mat["molecular_diameter"]
         _check_public(ctx, "HK", "slit", solved, widths, dist, cum, loading[:len(solved)], M, rho)
@@ -327,10 +328,19 @@ def _run_forward_slit(case, ctx):
         ctx.sample({"kind": "forward-slit", "adsorbate": ads, "adsorbent": mat_arg if isinstance(mat_arg, str) else mat, "T": T, "chosen_widths": W[:4], "pressures": p[:4], "returned_midpoints": widths[:3]})
 
 
-def _check_capture(ctx, model, geo):
+def _check_capture(ctx, model, geo, d_eff=None):
     """Residual of the potential equation at every solved width, using the closure the method built."""
     for cap in _CAPTURE:
         fun, bound = cap["fun"], cap["bound"]
+        if d_eff is not None:
+            # the search starts at the smallest pore that admits a molecule at all: wall-to-wall distance 2 d0 for a slit,
+            # radius d0 for a cylinder or a sphere (d0 = mean of the adsorbate and adsorbent diameters)
+            expected = 2 * d_eff if geo == "slit" else d_eff
+            ctx.count("search_interval", "%s/%s" % (model, geo))
+            if abs(float(bound) - expected) > 1e-12:
+                ctx.violation("%s/%s/search-interval-does-not-start-at-the-geometric-minimum" % (model, geo), "pores narrower than the lower end of the search interval cannot be reported, although they admit the molecule",
+                              lower_end=float(bound), geometric_minimum=expected)
+                return
         ws = cap["widths"]
         P = cap["pressure"][:len(ws)]
         if cap["cy"]:
@@ -450,7 +460,7 @@ def _run_residual(case, ctx):
         return
     ctx.count("configs", "%s/%s/%s" % (model, geo, mat_arg if isinstance(mat_arg, str) else "user-dict"))
     widths, dist, cum = (numpy.asarray(x, dtype=float) for x in res[1])
-    _check_capture(ctx, model, geo)
+    _check_capture(ctx, model, geo, (ads["molecular_diameter"] + mat["molecular_diameter"]) / 2)
     if not _CAPTURE:
         ctx.violation("solver-hook/not-reached", "the analysis returned but the solver hook saw nothing", model=model, geo=geo)
         return
@@ -490,6 +500,11 @@ def _run_routing(case, ctx):
     ads = _adsorbate_model(r, nitrogen=True)
     mat_arg, mat = _material(r)
     T = 77.355
+    lookup = case["seed"] % 3 == 0
+    if lookup:
+        # the adsorbate's parameters are looked up (no dictionary given): liquid density and molar mass are those of the
+        # isotherm's adsorbate at the isotherm's temperature, whatever was analysed before in this process
+        T = r.choice([77.355, 90.0, 110.0])
     n = r.randint(5, 10)
     p = numpy.array(gen.increasing(r, n, 1e-6, 0.15, log=True))
     loading = numpy.cumsum(numpy.array([r.uniform(0.05, 1.0) for _ in range(n)]))
@@ -497,8 +512,31 @@ def _run_routing(case, ctx):
                                **dict({k: v for k, v in gen.DEFAULT_UNITS.items() if not k.startswith("pressure")}, **gen.temp_kw(T)))
     a = pygaps.Adsorbate.find("nitrogen")
     adsd = dict(ads, liquid_density=a.liquid_density(T), adsorbate_molar_mass=a.molar_mass())
-    res = _call(pm.psd_microporous, iso, psd_model=model, pore_geometry=geo, material_model=mat_arg, adsorbate_model=adsd, p_limits=(None, None))
+    res = _call(pm.psd_microporous, iso, psd_model=model, pore_geometry=geo, material_model=mat_arg, adsorbate_model=None if lookup else adsd, p_limits=(None, None))
     ctx.case(["routing", model, geo, case["seed"]])
+    if lookup:
+        ctx.count("routing", "adsorbate-looked-up/T=%g" % T)
+        if res[0] != "ok":
+            ctx.violation("psd_microporous/%s/%s/raises" % (model, geo), "the isotherm entry point raised", exc=res[1])
+            return
+        fl = RU.fluid("Nitrogen")
+        # ... and then the same sample measured at another temperature, analysed in the same session
+        T2 = r.choice([x for x in (77.355, 90.0, 110.0) if x != T])
+        iso2 = pygaps.PointIsotherm(pressure=list(p), loading=list(loading), branch="ads", material="verif-c17", adsorbate="nitrogen", pressure_mode="relative", pressure_unit=None,
+                                    **dict({k: v for k, v in gen.DEFAULT_UNITS.items() if not k.startswith("pressure")}, **gen.temp_kw(T2)))
+        res2 = _call(pm.psd_microporous, iso2, psd_model=model, pore_geometry=geo, material_model=mat_arg, adsorbate_model=None, p_limits=(None, None))
+        for TT, rr in ((T, res), (T2, res2)):
+            if rr[0] != "ok":
+                ctx.violation("psd_microporous/%s/%s/raises" % (model, geo), "the isotherm entry point raised", exc=rr[1])
+                continue
+            cum = numpy.asarray(rr[1]["pore_volume_cumulative"], dtype=float)
+            vol = loading * fl.molar_mass() / fl.rho_liq(TT) / 1000
+            m_ = len(cum)
+            ctx.case(["routing-lookup", model, geo, TT])
+            if m_ and not numpy.allclose(cum, vol[1:m_ + 1], rtol=1e-6):
+                ctx.violation("psd_microporous/cumulative-volume/looked-up-adsorbate", "the cumulative pore volume is not the adsorbed amount as liquid volume at the isotherm's temperature", T=TT, analysed_before=T if TT == T2 else None,
+                              got=cum[:3], expected=vol[1:4], ratio=float(cum[0] / vol[1]))
+        return
     if res[0] != "ok":
         ctx.violation("psd_microporous/%s/%s/raises" % (model, geo), "the isotherm entry point raised", exc=res[1])
         return
@@ -518,7 +556,7 @@ def _run_routing(case, ctx):
             (res[1]["pore_widths"], res[1]["pore_distribution"], res[1]["pore_volume_cumulative"]), direct[1]))
         if not same:
             ctx.violation("psd_microporous/%s/differs-from-low-level" % model, "the isotherm entry point and the low-level function of the requested model disagree", model=model, geo=geo)
-    _check_capture(ctx, model, geo)
+    _check_capture(ctx, model, geo, (ads["molecular_diameter"] + mat["molecular_diameter"]) / 2)
 
 
 def finalize(ctx):
